@@ -62,9 +62,12 @@ fn fp_of(v: &Value, conc: &[[u8; 32]]) -> Option<Fingerprint> {
 
 // name sets whose PathBuf (component-wise) order equals the numeric order of the spec's path ids; in all but the first
 // the BYTE order of the rendered strings is a different one ('-', '.', ' ', '+' sort before '/')
-// (the fifth set: names that LOOK like the tool's own staging files, conflict-copies and dot-files - to the planner they are paths like any other)
-const NAME_SETS: [[&str; 4]; 5] = [["a/x", "a/y", "b", "c"], ["d/x", "d-old/y", "d.txt", "e"], ["src/main", "src-old", "src.bak", "t"], ["a/z", "a b/c", "a+b", "b"],
-                                   ["draft.copia-tmp", "sub/report.copia-tmp", "f.conflict-0123456789ab", ".hidden"]];
+// (the fifth set: names that LOOK like the tool's own staging files, conflict-copies and dot-files - to the planner they are paths like any other;
+//  the sixth: each path an ANCESTOR of the next - a file on one side where the other side or the base has a directory; the decision
+//  table is per path of the union, whatever the paths are to one another)
+const NAME_SETS: [[&str; 4]; 6] = [["a/x", "a/y", "b", "c"], ["d/x", "d-old/y", "d.txt", "e"], ["src/main", "src-old", "src.bak", "t"], ["a/z", "a b/c", "a+b", "b"],
+                                   ["draft.copia-tmp", "sub/report.copia-tmp", "f.conflict-0123456789ab", ".hidden"],
+                                   ["d", "d/x", "d/x/y", "e"]];
 
 fn path_name_in(set: usize, i: usize) -> PathBuf {
     PathBuf::from(NAME_SETS[set % NAME_SETS.len()][i])
